@@ -34,7 +34,9 @@ def e2e_collect(term, ty, n_threads, length, c, avail, owners, counts, obs):
 def seq(term, ty, src="slice", ops=None):
     p = Pipeline(src, ops if ops is not None else chain_for(ty))
     n = 3
-    body = input_decl(n) + "    model::begin_unscheduled(4);\n"
+    # concrete input: whether a scope is entered does not depend on the data, and a computation that wrongly goes
+    # parallel (heap merge over vectors of symbolic length) would otherwise exhaust memory instead of being reported
+    body = "    let a: [u8; 3] = [0x41, 0x88, 0xC2];\n    model::begin_drain(4, 0);\n"
     if term == "for_each":
         k = p.final_kind()
         body += f"    {p.par('.num_threads(1).chunk_size(1)')}.for_each(move |x| {{ let _ = {val_of(k, 'x')}; }});\n"
@@ -42,7 +44,9 @@ def seq(term, ty, src="slice", ops=None):
         body += f"    let out = {p.par('.num_threads(1).chunk_size(1)')}.collect_into(Vec::new());\n"
         body += seq_eq_loop(p.seq(), p.final_kind(), "out", 0)
     else:
-        body += terminal_code(p, ".num_threads(1).chunk_size(1)", term, n)
+        code = terminal_code(p, ".num_threads(1).chunk_size(1)", term, n)
+        # the input is concrete here: the value-dependent reachability witnesses of terminal_code do not apply
+        body += "".join(l + "\n" for l in code.split("\n") if l and not l.strip().startswith("kani::cover!"))
     body += SEQ + "    kani::cover!(true);\n"
     sig = "".join({"map": "m", "filter": "f", "filter_map": "o", "flat_map": "l"}[o.kind] for o in p.ops)
     name = cfg_name("c08_max1", term, p.type(), src, ("eager_" + sig) if p.eager_sites() else "")
